@@ -68,7 +68,14 @@ CODES = {
     14: "get_leaf_value <> direct bridge.getLeafValue(...) call",
     15: "l1info_leaf_value <> direct ger.getLeafValue(...) call",
     16: "dc_get_root dc_init / counts <> the freshly deployed contracts' views",
+    17: "dc_calculate_rootN <> bridge.calculateRoot on a proof served by the aggkit tree",
+    18: "dc_verify_merkle_proof <> bridge.verifyMerkleProof (served or tampered proof)",
+    19: "the leaf / root handed to the contract is not the model's j-th bridge leaf / root after k deposits",
+    20: "the bridge contract REJECTED a proof served by the node's append-only tree (or the tree served no 32-sibling proof)",
+    21: "the bridge contract accepted a tampered proof",
 }
+# codes that are a statement about the node (C08: a served proof verifies), not about the transcription
+PROPERTY_CODES = {20}
 
 
 def cases_n(tier):
@@ -102,6 +109,15 @@ def _after(a):
                                                  cNhex(a["grootmap"]), cNhex(a["mer"]), cNhex(a["rer"]), cNhex(a["ger"]))
 
 
+def _vobs(v):
+    if v.get("err"):
+        # the node could not serve the root / proof at all: an empty proof, which the property check (code 20) rejects
+        return "(mkV %s %s %s 0%%N [] false 0%%N 0%%nat 0%%N false)" % (cN(v["k"]), cN(v["j"]), cNhex(v["leaf"]))
+    return "(mkV %s %s %s %s %s %s %s %d%%nat %s %s)" % (cN(v["k"]), cN(v["j"]), cNhex(v["leaf"]), cNhex(v["root"]),
+                                                     clist([cNhex(x) for x in v["proof"]]), cbool(v["ok"]), cNhex(v["calc"]),
+                                                     v["tlevel"], cNhex(v["tsibling"]), cbool(v["tok"]))
+
+
 def _step(op, s):
     k = s["k"]
     if k == "leaf":
@@ -109,6 +125,8 @@ def _step(op, s):
                                                  cNhex(op.get("daddr", "")), cN(op.get("amount", "0") or "0"), cNhex(op.get("mh", "")), cNhex(s["answer"]))
     if k == "l1leaf":
         return "SL1Leaf %s %s %s %s" % (cNhex(op.get("ger", "")), cNhex(op.get("bh", "")), cN(op.get("ts", 0)), cNhex(s["answer"]))
+    if k == "verify":
+        return "SVerify %s" % clist([_vobs(v) for v in s.get("verifs") or []])
     ok = s["status"] != 0          # "time" steps (empty block) have status -1
     return "STx %s %s %s %s" % (cbool(ok), clist([_bev(e) for e in s.get("bevs") or []]), clist([_l1(e) for e in s.get("l1evs") or []]),
                                 copt(_after(s["after"]) if s.get("after") else None))
@@ -139,7 +157,8 @@ def distribution(outs):
          "max_deposit_count": 0, "reverted_transactions": 0, "l1_info_leaves": 0, "max_l1_leaf_count": 0,
          "l1_leaves_with_contract_leaf_value": 0, "update_l1_info_tree_v2_events": 0, "timestamps_ge_2^32": 0,
          "direct_bridge_leaf_queries": 0, "direct_ger_leaf_queries": 0, "transactions_sharing_a_block": 0,
-         "views_compared": 0, "forced_ger_updates": 0, "rollup_root_updates": 0, "rollup_updates_without_new_leaf": 0,
+         "views_compared": 0, "proofs_judged_by_contract": 0, "proofs_accepted": 0, "tampered_proofs_rejected": 0,
+         "proofs_of_historical_versions": 0, "max_version_proved": 0, "forced_ger_updates": 0, "rollup_root_updates": 0, "rollup_updates_without_new_leaf": 0,
          "bridge_versions": sorted({o["env"].get("bridge_version", "") for o in outs}),
          "ger_versions": sorted({o["env"].get("ger_version", "") for o in outs})}
     for o in outs:
@@ -171,6 +190,12 @@ def distribution(outs):
             if k == "rollup" and s["status"] == 1:
                 d["rollup_root_updates"] += 1
                 d["rollup_updates_without_new_leaf"] += 0 if s.get("l1evs") else 1
+            for v in s.get("verifs") or []:
+                d["proofs_judged_by_contract"] += 1
+                d["proofs_accepted"] += 1 if v.get("ok") else 0
+                d["tampered_proofs_rejected"] += 0 if v.get("tok", True) else 1
+                d["proofs_of_historical_versions"] += 1 if v["k"] < s.get("nleaf", 0) else 0
+                d["max_version_proved"] = max(d["max_version_proved"], v["k"])
             d["direct_bridge_leaf_queries"] += 1 if k == "leaf" else 0
             d["direct_ger_leaf_queries"] += 1 if k == "l1leaf" else 0
     return d
@@ -181,7 +206,8 @@ def comparisons(d):
     return dict(bridge_leaf_values=d["deposits"] * 3 + d["direct_bridge_leaf_queries"], metadata_hashes=d["deposits"],
                 l1_leaf_values=d["l1_leaves_with_contract_leaf_value"] + d["direct_ger_leaf_queries"],
                 global_exit_roots=d["l1_leaves_with_contract_leaf_value"] + d["views_compared"],
-                roots_and_counts=4 * d["views_compared"] + 2 * d["update_l1_info_tree_v2_events"])
+                roots_and_counts=4 * d["views_compared"] + 2 * d["update_l1_info_tree_v2_events"],
+                merkle_proof_verifications=3 * d["proofs_judged_by_contract"])
 
 
 # ---------------------------------------------------------------------------------------------
@@ -282,7 +308,21 @@ def run_evm_part(chk):
                samples=[_sample(outs[i]) for i in sorted({0, len(outs) - 1}) if outs])
     if not bad:
         return
-    diag = diagnose(pid, outs, bad[:3])
+    diag = diagnose(pid, outs, bad[:8])
+    # a served proof the contract rejects is a violation of the property by the node (concrete replay), everything else
+    # is a disagreement between the transcription and the bytecode
+    prop_bad = [i for i in bad[:8] if any(code in PROPERTY_CODES for _, code in diag.get(i, []))]
+    if prop_bad:
+        i = prop_bad[0]
+        path = vlib.write_replay(pid, chk.seed, "input", dict(
+            cases=[], evm_cases=[outs[i]], harness="evm",
+            what="the deployed bridge contract's verifyMerkleProof rejected a proof served by the node's append-only tree",
+            details=_describe(outs[i], [d for d in diag.get(i, []) if d[1] in PROPERTY_CODES])))
+        chk.violations.append((path, ""))
+        cov["proofs_rejected_by_contract_cases"] = len(prop_bad)
+    bad = [i for i in bad if i not in prop_bad]
+    if not bad:
+        return
     first = outs[bad[0]]
     lines = _describe(first, diag.get(bad[0], []))
     what = lines[0].split(": ", 1)[1] if lines else "case %d (no diagnosis available)" % bad[0]
